@@ -1,4 +1,5 @@
 import Qhttp.Model.Http
+import Qhttp.Lemmas.C18Inv
 /-
   C18 — write-progress notifications count body bytes only, for every acknowledgement pattern.
 -/
@@ -44,5 +45,195 @@ def holds (sc : Scenario) (obs : List Obs) : Bool :=
     -- not closed and everything acknowledged at the end: the sum is the body byte count
     (if !ended sc obs && (match sc.events.getLast? with | some .ackAll => true | _ => false)
      then sumBw obs == (wire.length : Int) - h else true)
+
+end Qhttp.C18
+
+/-! ## Theorems
+
+Scenario shape: the silent application, `new`, then response-side API calls from idle context
+(within the documented preconditions `C03.wfOps`: CR/LF-free tokens, the head requested at most
+once) interleaved with acknowledgements `ack n` / `ackAll` of arbitrary sizes.
+
+Invariant (Lemmas/C18Inv.lean, `Core`/`PhA`/`PhB`/`PhC`): with `H` the length of the response head,
+`Σ notified = max 0 (Σ acked − H)` while the socket is not closed, `hdrRemaining = H − Σ acked`
+while the write state is `headers`, `Σ acked + unacked = written`, every count ≥ 0, and `H` is what
+`headerLen` reads off the wire (Lemmas/C18Head.lean: the first blank line of a clean head is its end).
+-/
+
+namespace Qhttp.C18
+open Qhttp
+
+/-- the events of the scenario shape: API calls (any call; a `note` may record anything but
+    `ev`/`w`/`bw`/`tc`, which the walk interprets) and acknowledgements -/
+abbrev okEvent : Event → Bool := C18L.okEvent
+
+theorem walk_eq (evs : List Event) (h : Nat) (l : List Obs) (w a : Nat) (s : Int) :
+    walk evs h l w a s = C18L.walk' (ackOf evs) h l ⟨w, a, s⟩ := by
+  induction l generalizing w a s with
+  | nil => rfl
+  | cons o l ih =>
+    cases o <;> simp only [walk, C18L.walk', C18L.wok, C18L.wstep, ih, Bool.true_and, Bool.and_assoc]
+
+theorem sumBw_eq (ack : Nat → Nat → Nat) (obs : List Obs) : sumBw obs = (C18L.track ack obs).sum := by
+  rw [C18L.track_sum]; rfl
+
+theorem ackOf_event (evs : List Event) (j : Nat) (e : Event) (h : evs[j]? = some e) (u : Nat) :
+    ackOf evs j u = C18L.ackOfEvent e u := by
+  unfold ackOf C18L.ackOfEvent
+  rw [h]
+  cases e <;> rfl
+
+theorem headerLen_nil : headerLen [] = none := rfl
+
+/-- the final state of every run of the shape satisfies the invariant -/
+theorem run_inv (env : Env) (rest : List Event) (hev : rest.all okEvent = true)
+    (hwf : C03.wfOps (C03.apiOps ⟨{}, .new :: rest⟩) false = true) :
+    ∃ st, C18L.WInv (ackOf (.new :: rest)) st (Scenario.run env ⟨{}, .new :: rest⟩) ∧
+      ((Event.new :: rest).getLast? = some .ackAll →
+        (Scenario.run env ⟨{}, .new :: rest⟩).tcp.unacked = 0) :=
+  C18L.run_inv env (ackOf (.new :: rest)) rest (fun j e h u => ackOf_event _ j e h u) hev hwf
+
+/-- **C18** on the model: for every environment and every history of the shape the predicate
+    evaluated by the driver holds. -/
+theorem holds_run (env : Env) (rest : List Event) (hev : rest.all okEvent = true)
+    (hwf : C03.wfOps (C03.apiOps ⟨{}, .new :: rest⟩) false = true) :
+    holds ⟨{}, .new :: rest⟩ (Scenario.run env ⟨{}, .new :: rest⟩).log = true := by
+  obtain ⟨st, ⟨co, ph⟩, hlast⟩ := run_inv env rest hev hwf
+  unfold holds
+  simp only []
+  rw [co.wire]
+  rcases ph with pb | ⟨_, pa⟩ | ⟨_, h, pc⟩
+  · rw [pb.wire, headerLen_nil]; simp only [Bool.or_true]
+  · rw [pa.wire, headerLen_nil]; simp only [Bool.or_true]
+  · have hh : headerLen (Scenario.run env ⟨{}, .new :: rest⟩).tcp.wire = some h := pc.hl
+    rw [hh]
+    simp only []
+    rw [walk_eq, show (⟨0, 0, 0⟩ : C18L.WSt) = {} from rfl, pc.wk, Bool.true_and]
+    split
+    · rename_i hc
+      simp only [Bool.and_eq_true, Bool.not_eq_true', ended, Bool.or_eq_false_iff] at hc
+      obtain ⟨⟨hnotc, _⟩, hl⟩ := hc
+      have hlast' : (Event.new :: rest).getLast? = some .ackAll := by
+        revert hl
+        cases (Event.new :: rest).getLast? with
+        | none => simp
+        | some e => cases e <;> simp
+      have hun := hlast hlast'
+      have hak := co.ak
+      rw [hun] at hak
+      rw [sumBw_eq (ackOf (.new :: rest)), beq_iff_eq]
+      rcases pc.st with ⟨_, _, _, hlt, _⟩ | ⟨_, _, _, hsum⟩ | ⟨_, hd, _⟩
+      · -- everything acknowledged yet still inside the head: impossible, the head is on the wire
+        exfalso
+        have hle : h ≤ (Scenario.run env ⟨{}, .new :: rest⟩).tcp.wire.length := by
+          have := pc.hl
+          cases hb : breakOn CRLF2 (Scenario.run env ⟨{}, .new :: rest⟩).tcp.wire with
+          | none => simp [hb] at this
+          | some ar =>
+            simp only [hb, Option.map_some, Option.some.injEq] at this
+            have h2 := C18L.breakOn_length _ _ ar.1 ar.2 hb
+            have h4 : CRLF2.length = 4 := rfl
+            omega
+        omega
+      · rw [hsum]; omega
+      · exfalso
+        have := co.tc2 hd
+        rw [hnotc] at this
+        cases this
+    · rfl
+
+/-- `headerLen` measures the response head: whatever body follows a head whose reason phrase and
+    header fields are CR-free, the first blank line on the wire is the end of that head. -/
+theorem headerLen_head (s : Sock) (hc : C18L.cleanHead s = true) (body : Bytes) :
+    headerLen (Sock.headBytes s ++ body) = some (Sock.headBytes s).length := by
+  obtain ⟨a, ha, hl⟩ := C18L.breakOn_head s hc body
+  simp [headerLen, ha, hl]
+
+/-- The invariant in plain terms, independent of `holds`: at the end of every history of the shape,
+    if the head (of length `H`) is on the wire and the socket has not been closed, the notified
+    counts add up to `max 0 (acknowledged − H)`, where acknowledged = written − unacknowledged.
+    In particular no header byte is ever notified and never more than the body bytes written. -/
+theorem sum_bw_eq (env : Env) (rest : List Event) (hev : rest.all okEvent = true)
+    (hwf : C03.wfOps (C03.apiOps ⟨{}, .new :: rest⟩) false = true) (H : Nat)
+    (hH : headerLen (Scenario.run env ⟨{}, .new :: rest⟩).tcp.wire = some H)
+    (hopen : (Scenario.run env ⟨{}, .new :: rest⟩).tcp.devOpen = true) :
+    sumBw (Scenario.run env ⟨{}, .new :: rest⟩).log
+      = max 0 (((Scenario.run env ⟨{}, .new :: rest⟩).tcp.wire.length : Int)
+                - (Scenario.run env ⟨{}, .new :: rest⟩).tcp.unacked - H) := by
+  obtain ⟨st, ⟨co, ph⟩, _⟩ := run_inv env rest hev hwf
+  have hak := co.ak
+  rw [sumBw_eq (ackOf (.new :: rest))]
+  rcases ph with pb | ⟨_, pa⟩ | ⟨_, h, pc⟩
+  · rw [pb.dev] at hopen; cases hopen
+  · rw [pa.wire, headerLen_nil] at hH; cases hH
+  · have hh : headerLen (Scenario.run env ⟨{}, .new :: rest⟩).tcp.wire = some h := pc.hl
+    rw [hh] at hH
+    cases hH
+    rcases pc.st with ⟨_, _, _, hlt, hsum⟩ | ⟨_, _, hge, hsum⟩ | ⟨_, hd, _⟩
+    · rw [hsum]; omega
+    · rw [hsum]; omega
+    · rw [hd] at hopen; cases hopen
+
+/-- once everything is acknowledged (socket not closed), the sum is the number of body bytes -/
+theorem sum_bw_all_acked (env : Env) (rest : List Event) (hev : rest.all okEvent = true)
+    (hwf : C03.wfOps (C03.apiOps ⟨{}, .new :: rest⟩) false = true) (H : Nat)
+    (hH : headerLen (Scenario.run env ⟨{}, .new :: rest⟩).tcp.wire = some H)
+    (hopen : (Scenario.run env ⟨{}, .new :: rest⟩).tcp.devOpen = true)
+    (hall : (Scenario.run env ⟨{}, .new :: rest⟩).tcp.unacked = 0) :
+    sumBw (Scenario.run env ⟨{}, .new :: rest⟩).log
+      = ((Scenario.run env ⟨{}, .new :: rest⟩).tcp.wire.length : Int) - H := by
+  rw [sum_bw_eq env rest hev hwf H hH hopen, hall]
+  have hle : H ≤ (Scenario.run env ⟨{}, .new :: rest⟩).tcp.wire.length := by
+    cases hb : breakOn CRLF2 (Scenario.run env ⟨{}, .new :: rest⟩).tcp.wire with
+    | none => simp [headerLen, hb] at hH
+    | some ar =>
+      simp only [headerLen, hb, Option.map_some, Option.some.injEq] at hH
+      have h2 := C18L.breakOn_length _ _ ar.1 ar.2 hb
+      have h4 : CRLF2.length = 4 := rfl
+      omega
+  omega
+
+/-! ### non-vacuity: the 18-byte head `HTTP/1.0 200 K\r\n\r\n`, body `xyz`, acknowledged in pieces
+    that end exactly at, one byte before, and across the end of the head -/
+
+def exEnv : Env := { url := fun p => some (p, []), errPage := fun _ _ => [60, 62] }
+
+def exPre : List Event :=
+  [.api (.status 200 (some [75])), .api (.hdr [65] [49] false), .api (.status 200 (some [75])),
+   .api (.hdrs []), .api (.write [120, 121, 122]), .ack 14]
+
+/-- exactly at the end of the head, then the body byte by byte -/
+def exAt : List Event := exPre ++ [.ack 4, .ack 1, .ack 1, .api (.write [119]), .ackAll]
+/-- one byte before the end, then one piece straddling into the body -/
+def exBefore : List Event := exPre ++ [.ack 3, .ack 2, .ackAll]
+/-- one piece from inside the head to inside the body -/
+def exAcross : List Event := exPre ++ [.ack 6, .ack 100]
+/-- closed before everything is acknowledged -/
+def exClosed : List Event := exPre ++ [.ack 5, .api .close, .ackAll]
+
+example : exAt.all okEvent = true ∧ C03.wfOps (C03.apiOps ⟨{}, .new :: exAt⟩) false = true := by decide
+example : exClosed.all okEvent = true ∧ C03.wfOps (C03.apiOps ⟨{}, .new :: exClosed⟩) false = true := by
+  decide
+
+def bwOf (l : List Obs) : List Int := l.filterMap fun o => match o with | .bw n => some n | _ => none
+
+example : bwOf (Scenario.run exEnv ⟨{}, .new :: exAt⟩).log = [0, 1, 1, 2] := by decide +kernel
+example : bwOf (Scenario.run exEnv ⟨{}, .new :: exBefore⟩).log = [1, 2] := by decide +kernel
+example : bwOf (Scenario.run exEnv ⟨{}, .new :: exAcross⟩).log = [2, 1] := by decide +kernel
+example : bwOf (Scenario.run exEnv ⟨{}, .new :: exClosed⟩).log = [1] := by decide +kernel
+example : headerLen (Scenario.run exEnv ⟨{}, .new :: exAt⟩).tcp.wire = some 18 := by decide +kernel
+
+example : holds ⟨{}, .new :: exAt⟩ (Scenario.run exEnv ⟨{}, .new :: exAt⟩).log = true := by
+  decide +kernel
+example : holds ⟨{}, .new :: exBefore⟩ (Scenario.run exEnv ⟨{}, .new :: exBefore⟩).log = true := by
+  decide +kernel
+example : holds ⟨{}, .new :: exAcross⟩ (Scenario.run exEnv ⟨{}, .new :: exAcross⟩).log = true := by
+  decide +kernel
+example : holds ⟨{}, .new :: exClosed⟩ (Scenario.run exEnv ⟨{}, .new :: exClosed⟩).log = true := by
+  decide +kernel
+
+/-- the predicate is not vacuous: a history with a header byte notified is rejected -/
+example : holds ⟨{}, [.new, .api .wh, .ack 5]⟩
+    [.ev 0, .ev 1, .w (Sock.headBytes {}), .ev 2, .bw 5] = false := by decide +kernel
 
 end Qhttp.C18
